@@ -45,5 +45,8 @@ inline json ok() { return json{{"v", "ok"}}; }
 // first differing json-pointer between two documents ("" if equal)
 std::string firstDiff(const json &a, const json &b, const std::string &at = "");
 
+// where the handler currently is (reported with a harness exception)
+extern std::string g_phase;
+
 // silence HDF5's error stack printing
 void quietHdf5();
